@@ -1189,6 +1189,11 @@ func Gen16(t *rapid.T) Case16 {
 				c.Opts = append(c.Opts, Opt16{Name: gen.Pick(t, "mixedopt", []string{"accept-invalid", "skip-drive", "single-percent"})})
 			}
 		}
+		// the same option given twice (identically) is still that option: whatever a list with two
+		// different options of one kind means, an identical repetition cannot mean anything else
+		if len(c.Opts) > 0 && rapid.IntRange(0, 2).Draw(t, "dup") == 0 {
+			c.Opts = append(c.Opts, c.Opts[rapid.IntRange(0, len(c.Opts)-1).Draw(t, "dupwhich")])
+		}
 		if len(c.Opts) > 1 && rapid.IntRange(0, 1).Draw(t, "shuffle") == 1 {
 			c.Opts = rapid.Permutation(c.Opts).Draw(t, "order")
 		}
